@@ -42,6 +42,7 @@ type hop struct {
 	Labels  []uint64 `json:"labels,omitempty"`
 	N       uint64   `json:"n,omitempty"`
 	Kill    bool     `json:"kill,omitempty"` // restart: SIGKILL instead of a clean quit
+	Replace bool     `json:"replace,omitempty"`
 }
 
 type jcase struct {
@@ -83,6 +84,7 @@ type state struct {
 	mapops  map[int][]string
 	mapsegs map[int][]string // per version: finished segments (between restarts) of model ops
 	haveLM  bool
+	nm      map[string]string // logical instance name -> current name (instances can be renamed)
 }
 
 func (s *state) refresh() repoInfo {
@@ -132,9 +134,21 @@ func sparseRows(block, rows int) []byte {
 	return buf.Bytes()
 }
 
+func (s *state) n(logical string) string {
+	if s.nm != nil {
+		if x, ok := s.nm[logical]; ok {
+			return x
+		}
+	}
+	return logical
+}
+
 func (s *state) exec(o hop) {
 	p := s.p
 	u := s.vuuid[o.V]
+	if u == "" {
+		u = s.root
+	}
 	post := func(url string, body interface{}) (int, []byte) {
 		st, b, alive := p.PostJSON(url, body)
 		if !alive {
@@ -161,15 +175,15 @@ func (s *state) exec(o hop) {
 		post("/api/node/"+u+"/log", map[string][]string{"log": {o.Val}})
 	case "put":
 		s.keys[o.Key] = true
-		p.Post("/api/node/"+u+"/kv/key/"+o.Key, []byte(o.Val))
+		p.Post("/api/node/"+u+"/"+s.n("kv")+"/key/"+o.Key, []byte(o.Val))
 	case "del":
-		p.HTTP("DELETE", "/api/node/"+u+"/kv/key/"+o.Key, nil)
+		p.HTTP("DELETE", "/api/node/"+u+"/"+s.n("kv")+"/key/"+o.Key, nil)
 	case "njput":
-		p.Post("/api/node/"+u+"/nj/key/"+o.Key, []byte(o.Val))
+		p.Post("/api/node/"+u+"/"+s.n("nj")+"/key/"+o.Key, []byte(o.Val))
 	case "annput":
-		p.Post("/api/node/"+u+"/ann/elements", []byte(o.Val))
+		p.Post("/api/node/"+u+"/"+s.n("ann")+"/elements", []byte(o.Val))
 	case "ingest":
-		st, b, _ := p.Post("/api/node/"+u+"/lm/blocks", solidBlocks(o.Labels, s.blocks))
+		st, b, _ := p.Post("/api/node/"+u+"/"+s.n("lm")+"/blocks", solidBlocks(o.Labels, s.blocks))
 		if st != 200 {
 			fatal("POST blocks: %d %s", st, b)
 		}
@@ -180,14 +194,14 @@ func (s *state) exec(o hop) {
 		s.blocks += len(o.Labels)
 		time.Sleep(40 * time.Millisecond)
 	case "lmmerge":
-		st, b := post("/api/node/"+u+"/lm/merge", o.Labels)
+		st, b := post("/api/node/"+u+"/"+s.n("lm")+"/merge", o.Labels)
 		if st == 200 {
 			var r struct{ MutationID uint64 }
 			json.Unmarshal(b, &r)
 			s.mapops[o.V] = append(s.mapops[o.V], fmt.Sprintf("OMerge %d %d %s", r.MutationID, o.Labels[0], lib.CoqNList(o.Labels[1:])))
 		}
 	case "cleave":
-		st, b := post(fmt.Sprintf("/api/node/%s/lm/cleave/%d", u, o.N), o.Labels)
+		st, b := post(fmt.Sprintf("/api/node/%s/%s/cleave/%d", u, s.n("lm"), o.N), o.Labels)
 		if st == 200 {
 			var r struct{ CleavedLabel, MutationID uint64 }
 			json.Unmarshal(b, &r)
@@ -199,15 +213,44 @@ func (s *state) exec(o hop) {
 		if !ok {
 			return
 		}
-		st, b, _ := p.Post(fmt.Sprintf("/api/node/%s/lm/split-supervoxel/%d", u, o.N), sparseRows(blk, 4))
+		st, b, _ := p.Post(fmt.Sprintf("/api/node/%s/%s/split-supervoxel/%d", u, s.n("lm"), o.N), sparseRows(blk, 4))
 		if st == 200 {
 			var r struct{ SplitSupervoxel, RemainSupervoxel, MutationID uint64 }
 			json.Unmarshal(b, &r)
 			s.lmLabel[r.SplitSupervoxel], s.lmLabel[r.RemainSupervoxel] = true, true
 			s.mapops[o.V] = append(s.mapops[o.V], fmt.Sprintf("OSvSplit %d %d %d %d", r.MutationID, o.N, r.RemainSupervoxel, r.SplitSupervoxel))
 		}
+	case "sync": // Key = logical instance, Val = comma list of logical instances ("" clears), Kill = replace
+		var names []string
+		for _, x := range strings.Split(o.Val, ",") {
+			if x != "" {
+				names = append(names, s.n(x))
+			}
+		}
+		url := "/api/node/" + u + "/" + s.n(o.Key) + "/sync"
+		if o.Replace {
+			url += "?replace=true"
+		}
+		post(url, map[string]string{"sync": strings.Join(names, ",")})
+	case "rename": // Key = logical instance, Val = new name
+		if s.nm == nil {
+			s.nm = map[string]string{}
+		}
+		if r, _ := p.Rename(s.root, s.n(o.Key), o.Val); r.S == 200 {
+			s.nm[o.Key] = o.Val
+		}
+	case "tags":
+		post("/api/node/"+u+"/"+s.n(o.Key)+"/tags", map[string]string{"k": o.Val})
+	case "resolution":
+		post("/api/node/"+u+"/"+s.n("lm")+"/resolution", []float64{float64(o.N), float64(o.N), float64(o.N) + 0.5})
+	case "repoinfo":
+		post("/api/repo/"+s.root+"/info", map[string]string{"alias": "r1", "description": o.Val})
+	case "repolog":
+		post("/api/repo/"+s.root+"/log", map[string][]string{"log": {o.Val}})
+	case "maxlabel":
+		p.Post(fmt.Sprintf("/api/node/%s/%s/maxlabel/%d", u, s.n("lm"), o.N), nil)
 	case "nextlabel":
-		p.Post(fmt.Sprintf("/api/node/%s/lm/nextlabel/%d", u, o.N), nil)
+		p.Post(fmt.Sprintf("/api/node/%s/%s/nextlabel/%d", u, s.n("lm"), o.N), nil)
 	default:
 		fatal("unknown op %q", o.Op)
 	}
@@ -279,6 +322,12 @@ func (s *state) get(url string) string {
 	return fmt.Sprintf("%d:%s", st, b)
 }
 
+// getJinfo: instance info with the parts that other probes own removed
+func (s *state) getJinfo(url string) string {
+	st, b, _ := s.p.Get(url)
+	return fmt.Sprintf("%d:%s", st, canonJSON(b))
+}
+
 // getJ: like get, for JSON answers (empty list/map and null are not told apart)
 func (s *state) getJ(url string) string {
 	st, b, _ := s.p.Get(url)
@@ -300,7 +349,7 @@ func (s *state) snapshot() []probe {
 			}
 		}
 		json.Unmarshal(body, &ri)
-		if lm, ok := ri.DataInstances["lm"]; ok {
+		if lm, ok := ri.DataInstances[s.n("lm")]; ok {
 			add("lm-extents-index", "", fmt.Sprintf("%s/%s", lm.Extended.MinIndex, lm.Extended.MaxIndex))
 		}
 	}
@@ -308,7 +357,17 @@ func (s *state) snapshot() []probe {
 	for _, n := range ri.DAG.Nodes {
 		vs = append(vs, n.VersionID)
 	}
-	sort.Ints(vs)
+	// leaf versions first: state rebuilt lazily at start-up (label mappings) must not depend on which
+	// version is asked first
+	sort.Sort(sort.Reverse(sort.IntSlice(vs)))
+	for _, logical := range []string{"kv", "lm", "nj", "ann"} {
+		if logical == "lm" && !s.haveLM {
+			continue
+		}
+		add("data-info", logical, s.getJinfo("/api/node/"+s.root+"/"+s.n(logical)+"/info"))
+		add("data-tags", logical, s.getJ("/api/node/"+s.root+"/"+s.n(logical)+"/tags"))
+	}
+	add("repo-log", "", s.getJ("/api/repo/"+s.root+"/log"))
 	branches := map[string]bool{"master": true}
 	for _, n := range ri.DAG.Nodes {
 		if n.Branch != "" {
@@ -323,7 +382,7 @@ func (s *state) snapshot() []probe {
 	for _, b := range bs {
 		add("branch-versions", b, s.get("/api/repo/"+s.root+"/branch-versions/"+b))
 		// head resolution through the live branch map: every version holds key "ver" = its id
-		add("branch-head", b, s.get("/api/node/"+s.root+":"+b+"/kv/key/ver"))
+		add("branch-head", b, s.get("/api/node/"+s.root+":"+b+"/"+s.n("kv")+"/key/ver"))
 	}
 	var keys []string
 	for k := range s.keys {
@@ -341,28 +400,28 @@ func (s *state) snapshot() []probe {
 		add("node-note", vk, s.get("/api/node/"+u+"/note"))
 		add("node-log", vk, s.getJ("/api/node/"+u+"/log"))
 		add("node-status", vk, s.get("/api/node/"+u+"/status"))
-		add("kv-keys", vk, s.getJ("/api/node/"+u+"/kv/keys"))
+		add("kv-keys", vk, s.getJ("/api/node/"+u+"/"+s.n("kv")+"/keys"))
 		for _, k := range keys {
-			add("kv-key", vk+"/"+k, s.get("/api/node/"+u+"/kv/key/"+k))
+			add("kv-key", vk+"/"+k, s.get("/api/node/"+u+"/"+s.n("kv")+"/key/"+k))
 		}
-		add("nj-all", vk, s.getJ("/api/node/"+u+"/nj/all"))
-		add("nj-keys", vk, s.getJ("/api/node/"+u+"/nj/keys"))
-		add("ann-all", vk, s.getJ("/api/node/"+u+"/ann/all-elements"))
+		add("nj-all", vk, s.getJ("/api/node/"+u+"/"+s.n("nj")+"/all"))
+		add("nj-keys", vk, s.getJ("/api/node/"+u+"/"+s.n("nj")+"/keys"))
+		add("ann-all", vk, s.getJ("/api/node/"+u+"/"+s.n("ann")+"/all-elements"))
 		if s.haveLM {
-			add("lm-maxlabel", vk, s.get("/api/node/"+u+"/lm/maxlabel"))
-			add("lm-nextlabel", vk, s.get("/api/node/"+u+"/lm/nextlabel"))
-			add("lm-splits", vk, s.get("/api/node/"+u+"/lm/supervoxel-splits"))
+			add("lm-maxlabel", vk, s.get("/api/node/"+u+"/"+s.n("lm")+"/maxlabel"))
+			add("lm-nextlabel", vk, s.get("/api/node/"+u+"/"+s.n("lm")+"/nextlabel"))
+			add("lm-splits", vk, s.get("/api/node/"+u+"/"+s.n("lm")+"/supervoxel-splits"))
 			for i := 0; i < s.blocks; i++ {
-				add("lm-label", fmt.Sprintf("%s/%d", vk, i), s.get(fmt.Sprintf("/api/node/%s/lm/label/%d_10_10", u, i*64+10)))
-				add("lm-label-sv", fmt.Sprintf("%s/%d", vk, i), s.get(fmt.Sprintf("/api/node/%s/lm/label/%d_10_10?supervoxels=true", u, i*64+10)))
+				add("lm-label", fmt.Sprintf("%s/%d", vk, i), s.get(fmt.Sprintf("/api/node/%s/%s/label/%d_10_10", u, s.n("lm"), i*64+10)))
+				add("lm-label-sv", fmt.Sprintf("%s/%d", vk, i), s.get(fmt.Sprintf("/api/node/%s/%s/label/%d_10_10?supervoxels=true", u, s.n("lm"), i*64+10)))
 			}
 			for _, l := range lbls {
-				add("lm-size", fmt.Sprintf("%s/%d", vk, l), s.get(fmt.Sprintf("/api/node/%s/lm/size/%d", u, l)))
-				add("lm-supervoxels", fmt.Sprintf("%s/%d", vk, l), sortedArray(s.get(fmt.Sprintf("/api/node/%s/lm/supervoxels/%d", u, l))))
+				add("lm-size", fmt.Sprintf("%s/%d", vk, l), s.get(fmt.Sprintf("/api/node/%s/%s/size/%d", u, s.n("lm"), l)))
+				add("lm-supervoxels", fmt.Sprintf("%s/%d", vk, l), sortedArray(s.get(fmt.Sprintf("/api/node/%s/%s/supervoxels/%d", u, s.n("lm"), l))))
 			}
 			if len(lbls) > 0 {
 				b, _ := json.Marshal(lbls)
-				st, rb, _ := s.p.HTTP("GET", "/api/node/"+u+"/lm/mapping", b)
+				st, rb, _ := s.p.HTTP("GET", "/api/node/"+u+"/"+s.n("lm")+"/mapping", b)
 				add("lm-mapping", vk, fmt.Sprintf("%d:%s", st, rb))
 			}
 		}
@@ -400,12 +459,35 @@ func snapRepos(ri repoInfo, branchNo map[string]int, s *state) string {
 	for name := range ri.DataInstances {
 		names = append(names, name)
 	}
-	sort.Slice(names, func(i, j int) bool { return dataNo[names[i]] < dataNo[names[j]] })
+	logical := func(cur string) string {
+		for l, c := range s.nm {
+			if c == cur {
+				return l
+			}
+		}
+		return cur
+	}
+	sort.Slice(names, func(i, j int) bool { return dataNo[logical(names[i])] < dataNo[logical(names[j])] })
 	for _, name := range names {
 		r, _ := s.p.Call("iid", ri.Root, name)
-		ds = append(ds, fmt.Sprintf("(%d,%d)", dataNo[name], r.N))
+		ds = append(ds, fmt.Sprintf("(%d,%d)", dataNo[logical(name)], r.N))
 	}
 	return fmt.Sprintf("[(%d,[%s],[%s])]", rootV, strings.Join(ns, ";"), strings.Join(ds, ";"))
+}
+
+func pickS(r *lib.Rand, xs ...string) string { return xs[r.Intn(len(xs))] }
+
+func mutVersions(s *state) int {
+	seen := map[int]bool{}
+	for v, ops := range s.mapops {
+		if len(ops) > 0 {
+			seen[v] = true
+		}
+	}
+	for v := range s.mapsegs {
+		seen[v] = true
+	}
+	return len(seen)
 }
 
 var dataNo = map[string]int{"kv": 1, "lm": 2, "nj": 3, "ann": 4}
@@ -472,14 +554,8 @@ func runHistory(run *lib.Run, c jcase) {
 		pops = append(pops, fmt.Sprintf("PNewData 1 %d", dataNo[name]))
 	}
 	mkdata("keyvalue", "kv")
-	for _, o := range c.Ops {
-		if strings.HasPrefix(o.Op, "lm") || o.Op == "ingest" || o.Op == "cleave" || o.Op == "splitsv" || o.Op == "nextlabel" {
-			s.haveLM = true
-		}
-	}
-	if s.haveLM {
-		mkdata("labelmap", "lm")
-	}
+	s.haveLM = true
+	mkdata("labelmap", "lm")
 	mkdata("neuronjson", "nj")
 	mkdata("annotation", "ann")
 	p.Post("/api/node/"+s.root+"/kv/key/ver", []byte("ver1"))
@@ -559,6 +635,11 @@ func runHistory(run *lib.Run, c jcase) {
 					run.Add("generic-merge", fmt.Sprintf("(CGenMerge [(%d%%nat, %d%%nat)])", kinds[k][0], kinds[k][1]), c, fmt.Sprintf("genm/%s/%d", c.Name, restarts))
 					continue
 				}
+				if k == "lm-splits" && mutVersions(s) > 1 {
+					// label mutations in several versions: outside the one-version log model, compared as is
+					gens = append(gens, fmt.Sprintf("(%d%%nat, %d%%nat)", kinds[k][0], kinds[k][1]))
+					continue
+				}
 				if k == "branch-head" || k == "lm-splits" || k == "lm-nextlabel" || k == "repos-info" || k == "repo-info" || k == "lm-extents-index" {
 					continue // compared through the models below
 				}
@@ -621,6 +702,9 @@ func runHistory(run *lib.Run, c jcase) {
 					return ""
 				}
 				for _, v := range vs {
+					if mutVersions(s) > 1 {
+						break
+					}
 					// the split list of GET supervoxel-splits covers the ancestry; histories put all
 					// labelmap mutations into one version, so it is that version's list
 					segs := append(append([]string{}, s.mapsegs[v]...), "["+strings.Join(s.mapops[v], "; ")+"]")
@@ -692,6 +776,25 @@ func corpus() []jcase {
 			{Op: "commit", V: 1}, {Op: "newversion", V: 1}, {Op: "branch", V: 1, Branch: "b1"},
 			{Op: "commit", V: 2}, {Op: "commit", V: 3}, {Op: "merge", Parents: []int{2, 3}}, {Op: "restart"}}},
 		{Kind: "history", Name: "labelmap-empty", Ops: []hop{{Op: "nextlabel", N: 0}, {Op: "restart"}}},
+		// every settings operation with the restart RIGHT AFTER it (nothing else saves the repo in between)
+		{Kind: "history", Name: "settings", Ops: []hop{
+			{Op: "sync", Key: "ann", Val: "lm"}, {Op: "restart"},
+			{Op: "tags", Key: "kv", Val: "t1"}, {Op: "restart", Kill: true},
+			{Op: "sync", Key: "ann", Val: "", Replace: true}, {Op: "restart"},
+			{Op: "sync", Key: "ann", Val: "lm"}, {Op: "sync", Key: "ann", Val: "lm,kv", Replace: true}, {Op: "restart"},
+			{Op: "rename", Key: "nj", Val: "nj2"}, {Op: "restart"},
+			{Op: "resolution", N: 4}, {Op: "restart"},
+			{Op: "repoinfo", Val: "described"}, {Op: "restart", Kill: true},
+			{Op: "repolog", Val: "a repo log line"}, {Op: "restart"},
+			{Op: "note", V: 1, Val: "n1"}, {Op: "restart"},
+			{Op: "log", V: 1, Val: "l1"}, {Op: "restart"},
+			{Op: "sync", Key: "ann", Val: "", Replace: true}, {Op: "restart", Kill: true}}},
+		// label mapping records in two versions of one path; after the restart the leaf is asked first
+		{Kind: "history", Name: "labelmap-two-versions", Ops: []hop{
+			{Op: "ingest", V: 1, Labels: []uint64{1, 2, 3, 4, 5}}, {Op: "lmmerge", V: 1, Labels: []uint64{1, 2, 3}},
+			{Op: "commit", V: 1}, {Op: "newversion", V: 1},
+			{Op: "cleave", V: 2, N: 1, Labels: []uint64{2}}, {Op: "lmmerge", V: 2, Labels: []uint64{4, 5}}, {Op: "maxlabel", V: 2, N: 50},
+			{Op: "restart"}, {Op: "commit", V: 2}, {Op: "newversion", V: 2}, {Op: "lmmerge", V: 3, Labels: []uint64{4, 1}}, {Op: "restart", Kill: true}}},
 		{Kind: "history", Name: "labelmap-mutations", Ops: []hop{
 			{Op: "ingest", V: 1, Labels: []uint64{1, 2, 3, 4}}, {Op: "nextlabel", V: 1, N: 2},
 			{Op: "lmmerge", V: 1, Labels: []uint64{1, 2, 3}}, {Op: "cleave", V: 1, N: 1, Labels: []uint64{3}},
@@ -716,12 +819,20 @@ func randomHistory(rng *lib.Rand, i int) jcase {
 		p.PostJSON("/api/repo/"+s.root+"/instance", map[string]string{"typename": d[0], "dataname": d[1]})
 	}
 	do := func(o hop) { c.Ops = append(c.Ops, o); s.exec(o) }
-	lm := rng.Chance(0.6)
-	if lm {
-		do(hop{Op: "ingest", V: 1, Labels: []uint64{uint64(1 + rng.Intn(5)), uint64(10 + rng.Intn(5)), uint64(20 + rng.Intn(5))}})
+	// settings operations are followed by a restart at once most of the time: anything that saves the
+	// repo later would hide a change that was not saved
+	setting := func(o hop) {
+		do(o)
+		if rng.Chance(0.7) {
+			c.Ops = append(c.Ops, hop{Op: "restart", Kill: rng.Bool()})
+		}
 	}
+	s.haveLM = true
+	ls := []uint64{uint64(1 + rng.Intn(5)), uint64(10 + rng.Intn(5)), uint64(20 + rng.Intn(5)), uint64(30 + rng.Intn(5))}
+	do(hop{Op: "ingest", V: 1, Labels: ls})
+	bodies := append([]uint64{}, ls...) // bodies believed to exist (requests on stale ones are refused, harmlessly)
 	bn := 0
-	steps := 8 + rng.Intn(10)
+	steps := 10 + rng.Intn(12)
 	for k := 0; k < steps; k++ {
 		ri := s.refresh()
 		var nodes []nodeInfo
@@ -730,7 +841,7 @@ func randomHistory(rng *lib.Rand, i int) jcase {
 		}
 		sort.Slice(nodes, func(a, b int) bool { return nodes[a].VersionID < nodes[b].VersionID })
 		n := nodes[rng.Intn(len(nodes))]
-		switch rng.Intn(12) {
+		switch rng.Intn(16) {
 		case 0, 1:
 			if !n.Locked {
 				do(hop{Op: "put", V: n.VersionID, Key: fmt.Sprintf("k%d", rng.Intn(3)), Val: fmt.Sprintf("x%d", k)})
@@ -760,26 +871,47 @@ func randomHistory(rng *lib.Rand, i int) jcase {
 			if !n.Locked {
 				do(hop{Op: "njput", V: n.VersionID, Key: fmt.Sprint(100 + rng.Intn(3)), Val: fmt.Sprintf(`{"bodyid":%d,"f":"v%d"}`, 100+rng.Intn(3), k)})
 			}
-		case 9:
-			if lm && n.VersionID == 1 && !n.Locked {
-				var ls []uint64
-				for l := range s.blockOf {
-					ls = append(ls, l)
-				}
-				sort.Slice(ls, func(a, b int) bool { return ls[a] < ls[b] })
-				switch rng.Intn(3) {
-				case 0:
-					if len(ls) >= 2 {
-						do(hop{Op: "lmmerge", V: 1, Labels: []uint64{ls[0], ls[1]}})
+		case 9, 10, 11:
+			// label mutations at ANY open version (records in several versions of a path)
+			if !n.Locked && len(bodies) >= 2 {
+				switch rng.Intn(5) {
+				case 0, 1:
+					a, b := rng.Intn(len(bodies)), rng.Intn(len(bodies))
+					if a != b {
+						do(hop{Op: "lmmerge", V: n.VersionID, Labels: []uint64{bodies[a], bodies[b]}})
 					}
-				case 1:
-					do(hop{Op: "splitsv", V: 1, N: ls[rng.Intn(len(ls))]})
+				case 2:
+					do(hop{Op: "splitsv", V: n.VersionID, N: ls[rng.Intn(len(ls))]})
+				case 3:
+					do(hop{Op: "cleave", V: n.VersionID, N: bodies[rng.Intn(len(bodies))], Labels: []uint64{ls[rng.Intn(len(ls))]}})
 				default:
-					do(hop{Op: "nextlabel", V: 1, N: uint64(1 + rng.Intn(3))})
+					do(hop{Op: "nextlabel", V: n.VersionID, N: uint64(1 + rng.Intn(3))})
 				}
 			}
-		case 10:
-			do(hop{Op: "note", V: n.VersionID, Val: fmt.Sprintf("note %d", k)})
+		case 12:
+			setting(hop{Op: pickS(rng, "note", "log"), V: n.VersionID, Val: fmt.Sprintf("text %d", k)})
+		case 13:
+			switch rng.Intn(4) {
+			case 0:
+				setting(hop{Op: "sync", Key: "ann", Val: "lm"})
+			case 1:
+				setting(hop{Op: "sync", Key: "ann", Val: "", Replace: true})
+			case 2:
+				setting(hop{Op: "sync", Key: "ann", Val: pickS(rng, "lm", "lm,kv", "kv"), Replace: true})
+			default:
+				setting(hop{Op: "tags", Key: pickS(rng, "kv", "lm", "nj", "ann"), Val: fmt.Sprintf("t%d", k)})
+			}
+		case 14:
+			switch rng.Intn(4) {
+			case 0:
+				setting(hop{Op: "repoinfo", Val: fmt.Sprintf("d%d", k)})
+			case 1:
+				setting(hop{Op: "repolog", Val: fmt.Sprintf("line %d", k)})
+			case 2:
+				setting(hop{Op: "resolution", N: uint64(2 + rng.Intn(8))})
+			default:
+				setting(hop{Op: "rename", Key: "nj", Val: fmt.Sprintf("nj%d", k)})
+			}
 		default:
 			c.Ops = append(c.Ops, hop{Op: "restart", Kill: rng.Bool()})
 		}
